@@ -242,6 +242,27 @@ def token_at(path, line, col):
     return text[a:b]
 
 
+def source_line(path, line):
+    try:
+        with open(path, errors="replace") as f:
+            for i, text in enumerate(f, 1):
+                if i == line:
+                    return text
+    except OSError:
+        pass
+    return ""
+
+
+def identifier_position_words(text):
+    """Words of a C-family/Rust source line that stand where a declared name
+    stands: `<type> WORD[;,)=[]`, `namespace WORD {`, `.WORD` / `->WORD`, `WORD:`."""
+    out = re.findall(r"[\w>\*&\]]\s+([A-Za-z_]\w*)\s*[;,)=\[]", text)
+    out += re.findall(r"namespace\s+([A-Za-z_]\w*)\s*\{", text)
+    out += re.findall(r"(?:\.|->)\s*([A-Za-z_]\w*)\b", text)
+    out += re.findall(r"[(,]\s*([A-Za-z_]\w*)\s*:", text)
+    return [w for w in out if w not in ("const", "volatile")]
+
+
 def keyword_root_cause(err, wit_text, keywords, loc_re=r"^(\S+?):(\d+):(\d+): (?:fatal )?error:"):
     """If the first compiler error points at an identifier that is a keyword of
     the target language, name the root cause: the WIT identifier was written in
@@ -273,6 +294,8 @@ def keyword_root_cause(err, wit_text, keywords, loc_re=r"^(\S+?):(\d+):(\d+): (?
             if path:
                 cands.append(token_at(path, ln, col - back))
         cands += re.findall(r"[`'‘]([A-Za-z_][A-Za-z0-9_]*)['’`]", line)
+        if path:
+            cands += identifier_position_words(source_line(path, ln))
         for tok in cands:
             if tok and tok in keywords:
                 upper = tok.upper().replace("_", "-")
